@@ -188,7 +188,7 @@ int main(int argc, char ** argv) {
   if (ctl_sched_out) setvbuf(ctl_sched_out, 0, _IOLBF, 0);
   g_myth_verif_hook = uc_hook;
   int nv = MODE == 0 ? NP : 1;
-  for (int i = 0; i < nv; i++) { myth_uncond_init(&uv[i]); ctl_name_obj_kind(&uv[i], i + 1, "uncond"); }
+  for (int i = 0; i < nv; i++) { memset(&uv[i], 0x5a, sizeof uv[i]); myth_uncond_init(&uv[i]); ctl_name_obj_kind(&uv[i], i + 1, "uncond"); }
   ctl_name_thread(0);
   ctl_activate();
   static targ_t ta[2 * MAXV + MAXP + 1]; myth_thread_t th[2 * MAXV + MAXP + 1]; int nt = 0;
